@@ -16,7 +16,7 @@ out = {
     "needs": meta.get("needs"),
     "demo": meta.get("demo"),
     "author_ran": meta.get("ran"),
-    "confirmed_by_me": {"base_commit": "e7fe4d8", "cmd": "tools/confirm_seed.sh %s" % src, "result": conf},
+    "confirmed_by_me": {"base_commit": os.environ.get("SEED_BASE", "e7fe4d8"), "cmd": "tools/confirm_seed.sh %s" % src, "result": conf},
     "caught_by": caught,
     "note": note,
 }
